@@ -80,7 +80,7 @@ func (c *chain) GetAccountState(ctx context.Context, a ton.AccountID) (tlb.Shard
 // ---- the request, in abstract form ----
 
 type reqMsg struct {
-	kind string // raw-dag | raw-int | simple | message
+	kind string // raw-dag | raw-int | simple | message | deploy
 	mode uint8
 	// raw paths: the exact cell asked for
 	want *cell.Cell
@@ -93,6 +93,7 @@ type reqMsg struct {
 	body    *cell.Cell
 	code    *cell.Cell
 	data    *cell.Cell
+	extra   map[int32]*big.Int // simple: extra currencies asked for (non-zero amounts)
 }
 
 type caseIn struct {
@@ -106,6 +107,8 @@ type caseIn struct {
 	validUntil uint32
 	count      int
 	path       string // raw | sendv2 | body
+	defaultVU  bool   // body: MessageConfig.ValidUntil left zero (the wallet's message lifetime applies)
+	v5ext      int    // body, V5R1: number of extended actions added through the exported CreateSignedMsgBodyCell
 	withInit   bool
 	active     bool // sendv2: account active (seqno from data) or absent
 	lifetime   time.Duration
@@ -169,11 +172,13 @@ func genMsg(r *mon.Rng, path string) reqMsg {
 			return m
 		}
 		m.kind = "raw-int"
-	} else if r.Bool() {
+	} else if x := r.Intn(10); x < 4 {
 		m.kind = "simple"
 		m.mode = twalletDefaultMode
-	} else {
+	} else if x < 9 {
 		m.kind = "message"
+	} else {
+		m.kind = "deploy"
 	}
 	m.amount = r.Uint64() >> uint(r.Intn(64))
 	if r.Chance(1, 2) {
@@ -188,6 +193,25 @@ func genMsg(r *mon.Rng, path string) reqMsg {
 			n = r.Intn(400)
 		}
 		m.comment = randComment(r, n)
+		if r.Chance(1, 4) {
+			m.extra = map[int32]*big.Int{}
+			for k, n := 0, r.Range(1, 3); k < n; k++ {
+				id := mon.Pick(r, []int32{1, 2, 100, -1, -2, 1<<31 - 1, -1 << 31, int32(r.Uint64())})
+				amt := new(big.Int).SetBytes(r.Bytes(r.Range(1, 31))) // VarUInteger 32: up to 31 bytes
+				if amt.Sign() == 0 {
+					amt.SetInt64(1)
+				}
+				m.extra[id] = amt
+			}
+		}
+	case "deploy":
+		m.destWC = int8(mon.Pick(r, []int{0, 0, -1}))
+		m.code = gen.RandomDag(r, gen.DagOpts{Nodes: r.Range(1, 4), SmallBits: true})
+		m.data = gen.RandomDag(r, gen.DagOpts{Nodes: r.Range(1, 4), SmallBits: true})
+		m.dest = [32]byte(rwallet.DeployAddress(m.code, m.data))
+		if r.Chance(2, 3) {
+			m.body = gen.RandomDag(r, gen.DagOpts{Nodes: r.Range(1, 6), SmallBits: r.Bool()})
+		}
 	default:
 		if r.Chance(2, 3) {
 			m.body = gen.RandomDag(r, gen.DagOpts{Nodes: r.Range(1, 6), SmallBits: r.Bool()})
@@ -205,7 +229,40 @@ const twalletDefaultMode = 3 // SimpleTransfer always asks for mode 3 (documente
 func (m *reqMsg) sendable() (twallet.Sendable, error) {
 	addr := ton.AccountID{Workchain: int32(m.destWC), Address: m.dest}
 	if m.kind == "simple" {
-		return twallet.SimpleTransfer{Amount: tlb.Grams(m.amount), Address: addr, Comment: m.comment, Bounceable: m.bounce}, nil
+		st := twallet.SimpleTransfer{Amount: tlb.Grams(m.amount), Address: addr, Comment: m.comment, Bounceable: m.bounce}
+		if m.extra != nil {
+			st.ExtraCurrency = map[int32]tlb.VarUInteger32{}
+			for id, amt := range m.extra {
+				st.ExtraCurrency[id] = tlb.VarUInteger32(*new(big.Int).Set(amt))
+			}
+		}
+		return st, nil
+	}
+	if m.kind == "deploy" {
+		cd := twallet.ContractDeploy{Workchain: int32(m.destWC), Amount: tlb.Grams(m.amount)}
+		code, err := bridge.ToTongoBuilt(m.code)
+		if err != nil {
+			return nil, err
+		}
+		data, err := bridge.ToTongoBuilt(m.data)
+		if err != nil {
+			return nil, err
+		}
+		cd.Code, cd.Data = code, data
+		if m.body != nil {
+			b, err := bridge.ToTongoBuilt(m.body)
+			if err != nil {
+				return nil, err
+			}
+			cd.Body = b
+		}
+		// the request names no send mode: the mode the sendable itself reports is the one asked for
+		_, mode, err := cd.ToInternal()
+		if err != nil {
+			return nil, err
+		}
+		m.mode = mode
+		return cd, nil
 	}
 	out := twallet.Message{Amount: tlb.Grams(m.amount), Address: addr, Bounce: m.bounce, Mode: m.mode}
 	var err error
@@ -261,10 +318,26 @@ func (m *reqMsg) matches(got *cell.Cell) string {
 	if err != nil {
 		return "reference decoder: " + err.Error()
 	}
-	if !im.SrcNone || !im.IhrDisabled || im.Bounced || im.Extra != nil || im.IhrFee.Sign() != 0 || im.FwdFee.Sign() != 0 || im.CreatedLt != 0 || im.CreatedAt != 0 {
+	if !im.SrcNone || !im.IhrDisabled || im.Bounced || im.IhrFee.Sign() != 0 || im.FwdFee.Sign() != 0 || im.CreatedLt != 0 || im.CreatedAt != 0 {
 		return "unrequested header fields set"
 	}
-	if im.Bounce != m.bounce {
+	extras, err := rwallet.ExtraCurrencies(im.Extra)
+	if err != nil {
+		return "extra currencies: " + err.Error()
+	}
+	if len(extras) != len(m.extra) {
+		if len(m.extra) == 0 {
+			return "unrequested extra currencies"
+		}
+		return "extra currencies: number of entries"
+	}
+	for _, e := range extras {
+		want := m.extra[int32(e.ID)]
+		if want == nil || want.Cmp(e.Amount) != 0 {
+			return "extra currencies: id or amount"
+		}
+	}
+	if m.kind != "deploy" && im.Bounce != m.bounce { // a deployment request does not name a bounce flag
 		return "bounce flag"
 	}
 	if im.DestWC != m.destWC || im.Dest != m.dest {
@@ -429,7 +502,51 @@ func countClass(s verSpec, n int) string {
 	case s.max + 1:
 		return "max+1"
 	}
+	if n > s.max+1 {
+		return "far-above-max"
+	}
 	return "mid"
+}
+
+// buildV5R1Extended builds a V5R1 body through the exported
+// NewWalletV5R1(...).CreateSignedMsgBodyCell with c.v5ext extended actions in
+// addition to the outgoing messages.
+func buildV5R1Extended(c *caseIn, priv ed25519.PrivateKey, pub ed25519.PublicKey, cfg twallet.MessageConfig, snd []twallet.Sendable) (*tboc.Cell, error) {
+	wc := c.wc
+	w5 := twallet.NewWalletV5R1(pub, twallet.Options{Workchain: &wc, NetworkGlobalID: c.net})
+	raws := make([]twallet.RawMessage, 0, len(snd))
+	for _, sd := range snd {
+		im, mode, err := sd.ToInternal()
+		if err != nil {
+			return nil, err
+		}
+		mc := tboc.NewCell()
+		if err := tlb.Marshal(mc, im); err != nil {
+			return nil, err
+		}
+		raws = append(raws, twallet.RawMessage{Message: mc, Mode: mode})
+	}
+	rng := R.Rng("v5ext", c.idx)
+	var ext twallet.W5ExtendedActions
+	for k := 0; k < c.v5ext; k++ {
+		var a twallet.W5ExtendedAction
+		wcx, ad := randAddr(rng)
+		acc := ton.AccountID{Workchain: int32(wcx), Address: ad}
+		addr := acc.ToMsgAddress()
+		switch rng.Intn(3) {
+		case 0:
+			a.SumType = "AddExtension"
+			a.AddExtension = &struct{ Addr tlb.MsgAddress }{addr}
+		case 1:
+			a.SumType = "RemoveExtension"
+			a.RemoveExtension = &struct{ Addr tlb.MsgAddress }{addr}
+		default:
+			a.SumType = "SetSignatureAllowed"
+			a.SetSignatureAllowed = &struct{ Allowed bool }{rng.Bool()}
+		}
+		ext = append(ext, a)
+	}
+	return w5.CreateSignedMsgBodyCell(priv, raws, &ext, cfg)
 }
 
 func runCase(c *caseIn) {
@@ -518,10 +635,24 @@ func runCase(c *caseIn) {
 			t1 = time.Now()
 		} else {
 			cfg := twallet.MessageConfig{Seqno: c.seqno, ValidUntil: time.Unix(int64(c.validUntil), 0), V5MsgType: twallet.V5MsgTypeSignedExternal}
+			if c.defaultVU {
+				cfg.ValidUntil = time.Time{} // not set: the wallet's message lifetime applies
+				R.Seen("paths", s.name+"/body/default-expiry")
+			}
 			if c.v5internal {
 				cfg.V5MsgType = twallet.V5MsgTypeSignedInternal
 			}
-			p = mon.Guard(func() { bodyOnly, err = wal.CreateMessageBody(cfg, snd...) })
+			t0 = time.Now()
+			if c.v5ext > 0 && s.t == twallet.V5R1 && !c.defaultVU {
+				// the exported V5R1 builder with extended actions: the signed part then spans more than one
+				// reference of the body root (first extended action inline, the following ones chained)
+				R.Seen("paths", s.name+"/body/extended-actions")
+				p = mon.Guard(func() { bodyOnly, err = buildV5R1Extended(c, priv, pub, cfg, snd) })
+			} else {
+				c.v5ext = 0
+				p = mon.Guard(func() { bodyOnly, err = wal.CreateMessageBody(cfg, snd...) })
+			}
+			t1 = time.Now()
 		}
 	}
 	cls := countClass(s, c.count)
@@ -881,7 +1012,7 @@ func runCase(c *caseIn) {
 		return
 	}
 	vuOK := func(v uint32) bool {
-		if c.path != "sendv2" {
+		if c.path != "sendv2" && !c.defaultVU {
 			return v == wantVU
 		}
 		lo, hi := t0.Add(c.lifetime).Unix()-1, t1.Add(c.lifetime).Unix()+1
@@ -915,9 +1046,19 @@ func runCase(c *caseIn) {
 			R.Violation("magic-mismatch/"+s.name, w)
 			return
 		}
-		if req.HasExtended || req.Op != 0 {
+		if req.HasExtended != (c.v5ext > 0) || req.Op != 0 {
+			w["has_extended_actions"], w["extended_actions_requested"] = req.HasExtended, c.v5ext
 			R.Violation("unrequested-op@v5/"+s.name, w)
 			return
+		}
+		if s.r == rwallet.V5R1 && td.extra != fmt.Sprint("ext=", c.v5ext > 0) {
+			w["tongo_decode"] = td.extra
+			R.Violation("decoders-disagree@extended-actions/"+s.name, w)
+			return
+		}
+		if c.v5ext > 0 {
+			R.Count("v5r1_bodies_with_extended_actions", 1)
+			R.Seen("body_root_refs", fmt.Sprint(len(body.Refs)))
 		}
 	}
 	if (s.r == rwallet.V4R1 || s.r == rwallet.V4R2) && (req.Op != 0 || td.extra != "op=0") {
@@ -960,6 +1101,9 @@ func runCase(c *caseIn) {
 			return
 		}
 		R.Count("inner_messages_compared", 1)
+		if len(m.extra) > 0 {
+			R.Count("inner_messages_with_extra_currencies", 1)
+		}
 		R.Seen("message_kinds", m.kind)
 	}
 }
@@ -970,7 +1114,7 @@ func main() {
 		tier = os.Args[1]
 	}
 	R = mon.Start("C14", tier)
-	R.Rule = "each case builds one signed message through RawSendV2 / SendV2 / CreateMessageBody against a scripted chain; oracle = reference verifier + tongo's verifier under the wallet key, 8 foreign keys, every bit of the body root flipped and 64 bits in referenced cells (reference verifier; a sample through tongo), reference decoder + tongo decoders + ExtractRawMessages against the request (ids, seqno, expiry, modes, order, content via the reference internal-message decoder), count limit; non-trivial = a message that was built and verified; distinct = distinct body hashes (plus per-version classes for bit flips and over-limit refusals)"
+	R.Rule = "each case builds one signed message through RawSendV2 / SendV2 / CreateMessageBody (also with the expiry left to the wallet's message lifetime; V5R1 also through the exported CreateSignedMsgBodyCell with 2-3 extended actions, i.e. a signed part spanning two root references) against a scripted chain; requested messages: raw cells, Message, SimpleTransfer (comments, extra currencies), ContractDeploy (destination = hash of the StateInit of code and data); counts 0..max, max+1 and far above (256, 257, 300, 512); oracle = reference verifier + tongo's verifier under the wallet key, 8 foreign keys, every bit of the body root flipped and 64 bits in referenced cells (reference verifier; a sample through tongo), reference decoder + tongo decoders + ExtractRawMessages against the request (ids, seqno, expiry, modes, order, content via the reference internal-message decoder), count limit; non-trivial = a message that was built and verified; distinct = distinct body hashes (plus per-version classes for bit flips and over-limit refusals)"
 	R.Assume("reference wallet model harness/ref/wallet: signature placement and body layouts written from the contract sources; validated at start-up against captured network messages (2 signatures, 8 bodies, 10 inner messages) and real address vectors")
 	R.Assume("on-chain acceptance is not decided (no TVM); v5 action lists are compared in list order (tongo puts the first requested message in the outermost OutList cell; TVM performs the innermost first)")
 	R.Assume("wallet.VerifySignature has no V5Beta branch; for V5Beta the exported MessageV5VerifySignature is taken as tongo's verifier")
@@ -982,7 +1126,9 @@ func main() {
 	R.Extra("model_selfcheck", sc)
 
 	var cases []*caseIn
-	add := func(s verSpec, count int, i int) {
+	var add func(s verSpec, count int, i int)
+	forcePath := ""
+	add = func(s verSpec, count int, i int) {
 		rng := R.Rng("case", i)
 		c := &caseIn{idx: i, spec: s, count: count, seed: rng.Bytes(32)}
 		c.wc = mon.Pick(rng, []int{0, 0, -1})
@@ -1006,6 +1152,16 @@ func main() {
 		c.active = rng.Chance(3, 4)
 		c.lifetime = time.Duration(rng.Range(30, 7200)) * time.Second
 		c.v5internal = rng.Chance(1, 4)
+		// drawn from their own streams so that the other parameters of a case do not depend on them
+		if c.path == "body" {
+			c.defaultVU = R.Rng("default-expiry", i).Chance(1, 6)
+			if x := R.Rng("v5ext", i); s.t == twallet.V5R1 && x.Chance(2, 3) {
+				c.v5ext = x.Range(2, 3)
+			}
+		}
+		if forcePath != "" {
+			c.path = forcePath
+		}
 		for k := 0; k < count; k++ {
 			c.msgs = append(c.msgs, genMsg(rng, c.path))
 		}
@@ -1029,6 +1185,20 @@ func main() {
 			}
 		}
 	}
+	// far above the limit (a limit test that narrows the count would wrap): refused before anything is signed
+	for _, s := range specs {
+		seen := map[int]bool{}
+		for k, n := range []int{s.max + 2, 256, 257, 300, 512, 65536 + 1} {
+			if n <= s.max+1 || seen[n] || (n > 1000 && !R.Thorough()) {
+				continue
+			}
+			seen[n] = true
+			forcePath = []string{"raw", "sendv2"}[k%2]
+			add(s, n, idx)
+			idx++
+		}
+	}
+	forcePath = ""
 	if R.Thorough() {
 		for _, s := range specs {
 			for n := 0; n <= s.max+1; n++ {
